@@ -42,6 +42,37 @@ func c06SaveRestoreRendition(c *Ctx) {
 				if sel, ok := unparen(as.Rhs[0]).(*ast.SelectorExpr); ok && sel.Sel.Name == "cursor" {
 					whole = true
 				}
+				// vt.cursor = local, where local was defined once as <saved>.cursor and only its position is adjusted
+				if id, ok := unparen(as.Rhs[0]).(*ast.Ident); ok {
+					if obj := info.ObjectOf(id); obj != nil {
+						defs, fromSaved, otherField := 0, false, false
+						ast.Inspect(fi.Decl.Body, func(m ast.Node) bool {
+							as2, ok := m.(*ast.AssignStmt)
+							if !ok {
+								return true
+							}
+							for i, l := range as2.Lhs {
+								if lid, ok := unparen(l).(*ast.Ident); ok && info.ObjectOf(lid) == obj {
+									defs++
+									if len(as2.Lhs) == len(as2.Rhs) {
+										if sel, ok := unparen(as2.Rhs[i]).(*ast.SelectorExpr); ok && sel.Sel.Name == "cursor" && isCursorType(as2.Rhs[i]) {
+											fromSaved = true
+										}
+									}
+								}
+								if sel, ok := unparen(l).(*ast.SelectorExpr); ok {
+									if bid, ok := unparen(sel.X).(*ast.Ident); ok && info.ObjectOf(bid) == obj && sel.Sel.Name != "row" && sel.Sel.Name != "col" {
+										otherField = true
+									}
+								}
+							}
+							return true
+						})
+						if defs == 1 && fromSaved && !otherField {
+							whole = true
+						}
+					}
+				}
 			}
 			if lp == "Model.cursor.Style" {
 				if sel, ok := unparen(as.Rhs[0]).(*ast.SelectorExpr); ok && sel.Sel.Name == "Style" {
